@@ -186,6 +186,13 @@ class Analyzer:
             else:
                 self._scan(n["l"], st, s, fn)
             return
+        if k == "MethodCall" and n.get("name") == "for_each":
+            fe = for_each_info(n)
+            im = iter_mut_kill(fe) if fe is not None else None
+            if im is not None:
+                s.mut.add(im[0])
+                st["killed"].add(im[0])
+                return
         if k == "MethodCall":
             recv = n["recv"]
             f, whole = self._self_field(recv)
@@ -346,6 +353,19 @@ class Analyzer:
 
     def is_size(self, expr_nf, fn):
         return True
+
+
+def for_each_info(call):
+    """`X.iter_mut()[.enumerate()].for_each(|p| body)` seen as the loop `for p in X.iter_mut()[.enumerate()] { body }`"""
+    if call.get("k") != "MethodCall" or call.get("name") != "for_each" or len(call.get("args", [])) != 1 or call["args"][0].get("k") != "Closure":
+        return None
+    cl = call["args"][0]
+    if len(cl.get("params", [])) != 1:
+        return None
+    body = cl["body"]
+    if body["k"] != "Block":
+        body = {"k": "Block", "stmts": [], "expr": body, "sp": body.get("sp")}
+    return {"iter": call["recv"], "pat": cl["params"][0], "body": body}
 
 
 def iter_mut_kill(info):
@@ -574,6 +594,9 @@ def reset_specs(fn, aliases, nested_types):
                     out[key].overrides.append((value(l["idx"]), value(stmt["r"])))
                 else:
                     out[key] = Spec("unknown", "point write before any whole initialisation", "")
+        elif k == "MethodCall" and stmt.get("name") == "for_each" and for_each_info(stmt) is not None and iter_mut_kill(for_each_info(stmt)) is not None:
+            im = iter_mut_kill(for_each_info(stmt))
+            out[im[0]] = Spec("iota", "", "N") if im[1][0] == "iota" else Spec("fill", value(im[1][1]), "N")
         elif k == "MethodCall":
             kind, key, proj, idx = slicer.base_place(stmt["recv"])
             if kind != "self":
